@@ -1015,6 +1015,13 @@ fn main() {
                 let d = w.db.as_ref().expect("db").inner();
                 format!("seqno={} visible={}", d.seqno(), d.visible_seqno())
             }
+            "maxseq" => {
+                let d = w.db.as_ref().expect("db").inner();
+                match fjall::verif::highest_present_seqno(d) {
+                    Some(s) => format!("max={s}"),
+                    None => "none".into(),
+                }
+            }
             "rotate" => match w.ks.get(a[0]) {
                 Some(k) => match k.inner().rotate_memtable() {
                     Ok(b) => format!("ok rotated={b}"),
